@@ -99,6 +99,72 @@ func ruleLexPos(c *Ctx) {
 	}
 	c.atLeast("stores to cursor/position fields", nStores, 6)
 	c.atLeast("stores inside next()", nOwners, 5)
+	// end of input is a fixed point of next(): some callers (an escape or a line continuation at the very end
+	// of the source) call it again when the input is exhausted. The first call at the end still moves nextPos
+	// one column on, so a second call must not copy nextPos into pos again: the store to pos is reached only
+	// while offset <= len(src).
+	if nx := c.ssaFunc("lexer", "Lexer.next"); nx != nil {
+		guarded := false
+		var posStore *ssa.Store
+		for _, b := range nx.Blocks {
+			for _, in := range b.Instrs {
+				st, ok := in.(*ssa.Store)
+				if !ok {
+					continue
+				}
+				if f, _ := fieldOfAddr(st.Addr); f == nil || f.Name() != "pos" {
+					continue
+				}
+				posStore = st
+				for _, d := range nx.Blocks {
+					if len(d.Instrs) == 0 {
+						continue
+					}
+					iff, ok := d.Instrs[len(d.Instrs)-1].(*ssa.If)
+					if !ok {
+						continue
+					}
+					cmp, ok := iff.Cond.(*ssa.BinOp)
+					if !ok {
+						continue
+					}
+					// offset > len(src): pos may be stored only on the false edge; offset <= len(src): true edge
+					isOff := func(v ssa.Value) bool {
+						u, ok := v.(*ssa.UnOp)
+						if !ok {
+							return false
+						}
+						f, _ := fieldOfAddr(u.X)
+						return f != nil && f.Name() == "offset"
+					}
+					isLen := func(v ssa.Value) bool {
+						call, ok := v.(*ssa.Call)
+						if !ok {
+							return false
+						}
+						bi, ok := call.Call.Value.(*ssa.Builtin)
+						return ok && bi.Name() == "len"
+					}
+					edge := -1
+					switch {
+					case cmp.Op == token.GTR && isOff(cmp.X) && isLen(cmp.Y), cmp.Op == token.LSS && isLen(cmp.X) && isOff(cmp.Y):
+						edge = 1
+					case cmp.Op == token.LEQ && isOff(cmp.X) && isLen(cmp.Y), cmp.Op == token.GEQ && isLen(cmp.X) && isOff(cmp.Y):
+						edge = 0
+					}
+					if edge >= 0 && (edgeDominates(d, edge, b) || d.Succs[edge] == b) {
+						guarded = true
+					}
+				}
+			}
+		}
+		if posStore == nil {
+			c.undecided("eof-stable", nx.Pos(), "next() does not store Lexer.pos")
+		} else {
+			c.check(guarded, "eof-stable", posStore.Pos(), "pos is advanced only while offset <= len(src): calling next() again at the end of input leaves the end position where it is",
+				"next() copies nextPos into pos even when the input is already exhausted: the first call at the end moves nextPos one column on, so a second call (an escape or a line continuation as the very last byte of the source) reports the end of input two columns past the last byte - a position that does not exist in the source")
+		}
+	}
 }
 
 func isFieldAddr(v ssa.Value) bool {
